@@ -1336,3 +1336,40 @@ Section Whole.
     apply (expand_stretch_keep _ i t2 E2 R2).
   Qed.
 End Whole.
+
+(* ==================================================================================================================
+   Witnesses (exact arithmetic) through the whole pipeline with the full step 11.5: initialize_grid_tracks, 11.4,
+   11.5 with leaves of a fixed size as items, 11.6, 11.7, 11.8.  leaves: (first track, span, size). *)
+Definition q_leaf_items (tracks0 : list (track XQ)) (leaves : list (nat * nat * XQ)) : list (item XQ) :=
+  map (fun p => let '(id, (first, span, _)) := p in mk_axis_item id (Z.of_nat first) first span false (Fin 0) tracks0)
+      (combine (seq 0 (length leaves)) leaves).
+Definition q_tracks0 (template : list (tsf XQ)) (gap : sfn XQ) (inner : option XQ) : list (track XQ) :=
+  initialize_grid_tracks (mk_counts 0 (explicit_grid_size template inner gap true) 0) template [] gap (fun _ => true).
+Definition q_axis_full (template : list (tsf XQ)) (gap : sfn XQ) (avail : avail_space XQ) (inner : option XQ)
+           (leaves : list (nat * nat * XQ)) : list (track XQ) :=
+  let tracks0 := q_tracks0 template gap inner in
+  track_sizing_algorithm_full (leaf_contrib inner tracks0 (map snd leaves)) None None true avail inner
+    (q_leaf_items tracks0 leaves) tracks0.
+Definition mm_track (a b : sfn XQ) : tsf XQ := TSingle (a, b).
+
+(* (c) `minmax(min-content, 50px) minmax(10px, 10.008px) 100px`, gap 5, in a 100px grid (no free space for 11.6); one
+   item of width 200 spanning the three columns *)
+Definition witness_c_template : list (tsf XQ) :=
+  [mm_track SMinContent (SLength (Fin 50)); minmax_px 10 (10008 # 1000); px_track 100].
+Definition witness_c_leaves : list (nat * nat * XQ) := [(0%nat, 3%nat, Fin 200)].
+Definition witness_c_inner : option XQ := Some (Fin 100).
+Definition witness_c_tracks0 := q_tracks0 witness_c_template (SLength (Fin 5)) witness_c_inner.
+Definition witness_c_before := initialize_track_sizes witness_c_inner witness_c_tracks0.
+Definition witness_c_contrib := leaf_contrib witness_c_inner witness_c_tracks0 (map snd witness_c_leaves).
+Definition witness_c_items := q_leaf_items witness_c_tracks0 witness_c_leaves.
+Definition witness_c_after :=
+  resolve_intrinsic_track_sizes witness_c_contrib witness_c_inner (Definite (Fin 100)) witness_c_items witness_c_before.
+Definition witness_c := q_axis_full witness_c_template (SLength (Fin 5)) (Definite (Fin 100)) witness_c_inner witness_c_leaves.
+
+Definition base_at (ts : list (track XQ)) (i : nat) : XQ := match nth_error ts i with Some t => base_size t | None => XNaN end.
+
+(* a well-behaved grid with intrinsic tracks: `100px auto min-content 30px`, gap 10, in 400px; a 50px item in the first
+   column, an item of width 120 spanning the two intrinsic columns, a 20px item in the last one *)
+Definition example_intrinsic : list (track XQ) :=
+  q_axis_full [px_track 100; mm_track SAuto SAuto; mm_track SMinContent SMinContent; px_track 30] (SLength (Fin 10))
+    (Definite (Fin 400)) (Some (Fin 400)) [(0%nat, 1%nat, Fin 50); (1%nat, 2%nat, Fin 120); (3%nat, 1%nat, Fin 20)].
